@@ -431,7 +431,7 @@ func runC01(ctx *harness.Ctx) {
 			c01One(ctx, nil, "size-sweep", entryByName[entry], src)
 			return ctx.ViolationCount() < 6
 		})
-		ctx.Exhaustive(fmt.Sprintf("%d size-sweep templates x every size 0..%d", len(sweepTemplates), sweepMax), ctx.ViolationCount() == 0)
+		ctx.Exhaustive(fmt.Sprintf("%d size-sweep templates x every size 0..%d and 2^k-1..2^k+1 up to %d", len(sweepTemplates), ctx.Pick(sweepMax, 1100), ctx.Pick(4096, 16384)), ctx.ViolationCount() == 0)
 	})
 	ctx.Rapid("generated-list", ctx.Pick(1500, 30000), func(t *rapid.T) {
 		kind := rapid.SampledFrom([]string{"query", "ddl", "dml"}).Draw(t, "kind")
